@@ -88,6 +88,7 @@ pub fn run(tier: Tier) -> i32 {
                         Ok(s) => s,
                         Err(p) => p,
                     };
+                    let plain_frame_ok = got == exp;
                     if got != exp {
                         ctx.report(acc, Violation {
                             lang: l.code().into(),
@@ -114,6 +115,33 @@ pub fn run(tier: Tier) -> i32 {
                             });
                         }
                     }
+                    // two more frames for the smaller ranks: the ordinal followed by the decimal-separator word and a
+                    // digit (an ordinal is not the integral part of a decimal), and the ordinal spoken after a pause
+                    // that follows another number (token stream, first word of the ordinal flagged 'unrelated')
+                    // (only where the plain frame holds: a spelling that fails there is reported once, not three times)
+                    if plain_frame_ok && (n <= 300 || n % 37 == 0) {
+                        let c = crate::vocab::cls(l);
+                        let digit = crate::spell::spell(l, 5, crate::spell::Var::default());
+                        acc.traces += 2;
+                        let s = format!("xyzzy {} {} {digit} plugh", f.text, l.sep());
+                        let exp = format!("xyzzy {want} {} 5 plugh", l.sep());
+                        let got = guard(|| replace_numbers_in_text(&s, &lang, 0.0)).unwrap_or_else(|p| p);
+                        if got != exp {
+                            ctx.report(acc, Violation { lang: l.code().into(), entry: "replace_text".into(), input: s, threshold: Some(0.0), clause: format!("rewrite(ordinal(n) separator digit, {}) keeps the ordinal: digits + marker, then the separator word, then the digit", f.infl), expected: exp, observed: got });
+                        }
+                        let mut syms: Vec<String> = vec!["xyzzy".into(), c.tens.clone()];
+                        for (i, w) in f.text.split(' ').enumerate() {
+                            syms.push(if i == 0 { format!("~{w}") } else { w.to_string() });
+                        }
+                        syms.push("plugh".into());
+                        let toks: Vec<stream::HTok> = syms.iter().enumerate().map(|(i, w)| stream::HTok::decorated(i, w)).collect();
+                        if let Ok(occs) = guard(|| stream::find(&toks, &lang, 0.0)) {
+                            let ok = occs.len() == 2 && occs[0].start == 1 && occs[0].end == 2 && occs[1].start == 2 && occs[1].end == toks.len() - 1 && occs[1].is_ordinal && occs[1].text == want && occs[1].value() == n as f64;
+                            if !ok {
+                                ctx.report(acc, Violation { lang: l.code().into(), entry: "find_tokens".into(), input: serde_json::to_string(&syms).unwrap(), threshold: Some(0.0), clause: "an ordinal spoken after a pause that follows another number is still that ordinal".into(), expected: format!("two occurrences: the tens word alone, then text={want} value={n} is_ordinal=true over the ordinal's words"), observed: stream::show_occs(&occs) });
+                            }
+                        }
+                    }
                     if n % 7919 == 0 && acc.samples.len() < 6 {
                         acc.sample(json!({"lang": l.code(), "n": n, "inflection": f.infl, "spelling": f.text, "expected": want}));
                     }
@@ -125,7 +153,7 @@ pub fn run(tier: Tier) -> i32 {
     let cov = json!({
         "exhaustive": true,
         "rule": "every rank n in the range x every inflection x every ordinal spelling variant (distinct renderings only), through validator, scanner (threshold 0, inside a sentence) and occurrence fields",
-        "bounds": {"ranks": format!("1..={cap} (es, pt: 1..=1999) plus the top of the supported range and 40 x 16 structured ranks (thousands group x units group) above the dense bound"), "frame": "xyzzy <ordinal> plugh"},
+        "bounds": {"ranks": format!("1..={cap} (es, pt: 1..=1999) plus the top of the supported range and 40 x 16 structured ranks (thousands group x units group) above the dense bound"), "frame": "xyzzy <ordinal> plugh", "extra_frames_for_ranks_up_to_300_and_every_37th": ["xyzzy <ordinal> <separator word> <five> plugh", "token stream: xyzzy <tens> ~<ordinal> plugh"]},
         "inflections": {"en": "sg, pl(th/rd)", "fr": "sg, pl, premier m/f sg/pl", "es": "m/f sg/pl, apocope primer/tercer", "pt": "m/f sg/pl", "it": "m/f sg/pl", "de": "-e -er -en -es -em", "nl": "none"},
     });
     ctx.finish(acc, cov, vec![
